@@ -31,8 +31,36 @@ use crate::{ConversionOverflowError, Uint256, Uint64};
 /// let c = Uint128::from(70u32);
 /// assert_eq!(c.u128(), 70);
 /// ```
-#[derive(Copy, Clone, Default, Debug, PartialEq, Eq, PartialOrd, Ord, JsonSchema)]
+#[derive(Copy, Clone, Default, Debug, PartialEq, Eq, JsonSchema)]
 pub struct Uint128(#[schemars(with = "String")] pub(crate) symrt::SymU128);
+
+// Ordering is written out instead of derived: the derive routes `<`, `<=`, `>`, `>=` through
+// `partial_cmp`, i.e. through a three-way comparison (two decisions: "less?" then "equal?").
+// Forwarding each operator keeps it ONE decision with its exact negation on the other side
+// (`a > b` false records `a <= b`, not `a < b`), so a concolically executed prefix does not pin a
+// strict inequality where the code only asked for a non-strict one.
+impl PartialOrd for Uint128 {
+    fn partial_cmp(&self, other: &Self) -> Option<core::cmp::Ordering> {
+        self.0.partial_cmp(&other.0)
+    }
+    fn lt(&self, other: &Self) -> bool {
+        self.0.lt(&other.0)
+    }
+    fn le(&self, other: &Self) -> bool {
+        self.0.le(&other.0)
+    }
+    fn gt(&self, other: &Self) -> bool {
+        self.0.gt(&other.0)
+    }
+    fn ge(&self, other: &Self) -> bool {
+        self.0.ge(&other.0)
+    }
+}
+impl Ord for Uint128 {
+    fn cmp(&self, other: &Self) -> core::cmp::Ordering {
+        self.0.cmp(&other.0)
+    }
+}
 
 impl Uint128 {
     pub const MAX: Self = Self(symrt::SymU128::C(u128::MAX));
